@@ -18,6 +18,14 @@ class Unsupported(Exception):
     pass
 
 
+class BudgetExceeded(Unsupported):
+    """One application of a regex needed more steps than BUDGET."""
+
+
+STEPS = [0]          # matcher steps since the counter was last reset (all patterns)
+BUDGET = [200000]    # steps allowed for one application of one pattern
+
+
 class Match:
     def __init__(self, string, pos, end, groups, groupdict, ngroups=None):
         self.string = string
@@ -122,8 +130,9 @@ class Pattern:
     # ---- matcher: continuation passing; k(pos, groups) -> result | None ---------------------------------------------------
     def _m(self, seq, i, s, pos, groups, flags, k):
         self.budget += 1
-        if self.budget > 200000:
-            raise Unsupported('match budget exceeded')
+        STEPS[0] += 1
+        if self.budget > BUDGET[0]:
+            raise BudgetExceeded('match budget exceeded')
         if i == len(seq):
             return k(pos, groups)
         op, av = seq[i]
